@@ -46,6 +46,7 @@ class ConcreteCtx:
         self.ctx = {}
         self.tokens = {}
         self.int_lo, self.int_hi = -10**9, 10**9
+        self.exact = witness.get("mode") == "fp"   # bit-precise models are replayed without any float-noise slack
         if REPO not in sys.path:
             sys.path.insert(0, REPO)
         sys.dont_write_bytecode = True
@@ -99,8 +100,9 @@ class ConcreteCtx:
         return False
 
     # ---- combinators (tolerant of float noise in the direction of *not* reporting)
-    @staticmethod
-    def _slack(a, b):
+    def _slack(self, a, b):
+        if self.exact:
+            return 0.0
         return 1e-9 * (1.0 + abs(a) + abs(b))
 
     def all_of(self, conds):
